@@ -20,6 +20,7 @@ from bounded.oracles_linalg import (
     call,
     contract,
     degenerate_matrices,
+    wide_and_uneven_matrices,
     has_subinfo,
     kept_set,
     mat_features,
@@ -51,6 +52,13 @@ def gen_cases(tier, seed):
     for m in degenerate_matrices():
         n += 1
         if quick and n % 4:
+            continue
+        for mode in range(1, 7):
+            yield {"contract": "C13.svd_truncated", "m": m, "mode": mode}
+    k = 0
+    for m in wide_and_uneven_matrices():
+        k += 1
+        if quick and k % 6:
             continue
         for mode in range(1, 7):
             yield {"contract": "C13.svd_truncated", "m": m, "mode": mode}
